@@ -57,11 +57,11 @@ Section Writer.
                       (c_stpos s) (c_stidx s) (g_cur s) (g_emit s + produced) (g_frames s) (g_table s) in
         if negb (ret =? 0) then Some (mkCR ret 0 s1 orc' [])
         else
-          let chk := if flag_set (c_cf s1) then H (rev (c_acc s1)) mod 4294967296 else 0 in
+          let chk := if flag_set (c_cf s1) then H (revT (c_acc s1)) mod 4294967296 else 0 in
           match log_frame (c_log s1) (c_fc s1) (c_fd s1) chk with
           | Ok log' =>
               Some (mkCR 0 0 (mkC log' 0 0 [] (c_mfs s1) (c_cf s1) (c_wst s1) (c_stpos s1) (c_stidx s1)
-                                  [] 0 ((g_emit s1, rev (g_cur s1)) :: g_frames s1) (g_table s1)) orc' [])
+                                  [] 0 ((g_emit s1, revT (g_cur s1)) :: g_frames s1) (g_table s1)) orc' [])
           | Err c => Some (mkCR (errval c) 0 s1 orc' [])
           | Trap _ => None
           end
